@@ -31,7 +31,7 @@ var c06Texts = []string{"1.5", "2.5", "-1.5", "0.5", "-0.5", "3", "10", "abc", "
 func TestC06(t *testing.T) {
 	runWitnesses(t, "C06")
 	ops := []string{"+", "-", "*", "div", "mod"}
-	runProp(t, "arith", 60000, 6000000, func(t *rapid.T) {
+	runProp(t, "arith", 480000, 6000000, func(t *rapid.T) {
 		a, b := genFloat(t, "a"), genFloat(t, "b")
 		c := &evalCase{Events: []xmodel.Event{{K: "S", Local: "r"}, {K: "E"}}, Ctx: "/",
 			Vars: []varBinding{{Local: "a", T: "num", Num: fmtFloat(a)}, {Local: "b", T: "num", Num: fmtFloat(b)}}}
@@ -75,7 +75,7 @@ func TestC06(t *testing.T) {
 		c06Arith.run(t, c)
 	})
 	// literal forms: the operands are written into the expression
-	runProp(t, "literals", 6000, 300000, func(t *rapid.T) {
+	runProp(t, "literals", 48000, 300000, func(t *rapid.T) {
 		lits := []string{"0", "1", "2", "5", "2.5", "0.5", ".5", "3", "10", "0.1", "7.25", "1000000000000000000000", "0.000001"}
 		lit := func(label string) *xast.Expr {
 			e := xast.Num(lits[rapid.IntRange(0, len(lits)-1).Draw(t, label)])
@@ -97,7 +97,7 @@ func TestC06(t *testing.T) {
 		c06Arith.run(t, c)
 	})
 	// sum() and count() over nodes with numeric and non-numeric text
-	runProp(t, "sum", 8000, 500000, func(t *rapid.T) {
+	runProp(t, "sum", 64000, 500000, func(t *rapid.T) {
 		n := rapid.IntRange(0, 12).Draw(t, "nodes")
 		ev := []xmodel.Event{{K: "S", Local: "r"}}
 		var texts []string
